@@ -285,6 +285,78 @@ func (c *Ctx) BitStorageGuards() []core.Ob {
 
 // bitStorageLengthChecks: NewBitStorage and Fix refuse a raw array whose length
 // is not calcBitStorageSize(bits, length).
+// nilOnlyBehindLenCheck: every nil return of g (a method of the storage) lies behind the equal edge of
+// a comparison of len(<data field of its receiver>) with a computed size.
+func (c *Ctx) nilOnlyBehindLenCheck(g *ssa.Function, dataField string) bool {
+	if len(g.Blocks) == 0 || len(g.Params) == 0 {
+		return false
+	}
+	isLen := func(v ssa.Value) bool {
+		cl, ok := stripConv(v).(*ssa.Call)
+		if !ok {
+			return false
+		}
+		bi, ok := cl.Common().Value.(*ssa.Builtin)
+		return ok && bi.Name() == "len" && rootFieldOfAddr(loadAddr(cl.Common().Args[0]), g.Params[0]) == dataField
+	}
+	var eqEdges []*ssa.BasicBlock
+	for _, b := range g.Blocks {
+		if len(b.Succs) != 2 {
+			continue
+		}
+		iff, ok := b.Instrs[len(b.Instrs)-1].(*ssa.If)
+		if !ok {
+			continue
+		}
+		cmp, ok := iff.Cond.(*ssa.BinOp)
+		if !ok || (cmp.Op != token.EQL && cmp.Op != token.NEQ) || !(isLen(cmp.X) || isLen(cmp.Y)) {
+			continue
+		}
+		eq := b.Succs[0]
+		if cmp.Op == token.NEQ {
+			eq = b.Succs[1]
+		}
+		eqEdges = append(eqEdges, eq)
+	}
+	if len(eqEdges) == 0 {
+		return false
+	}
+	n := 0
+	for _, b := range g.Blocks {
+		r, ok := b.Instrs[len(b.Instrs)-1].(*ssa.Return)
+		if !ok || len(r.Results) != 1 {
+			continue
+		}
+		type vb struct {
+			v ssa.Value
+			b *ssa.BasicBlock
+		}
+		vals := []vb{{r.Results[0], b}}
+		if ph, ok := r.Results[0].(*ssa.Phi); ok {
+			vals = nil
+			for i, e := range ph.Edges {
+				vals = append(vals, vb{e, ph.Block().Preds[i]})
+			}
+		}
+		for _, x := range vals {
+			if !isNilConst(x.v) {
+				continue
+			}
+			n++
+			dom := false
+			for _, e := range eqEdges {
+				if e == x.b || (len(e.Preds) == 1 && e.Dominates(x.b)) {
+					dom = true
+				}
+			}
+			if !dom {
+				return false
+			}
+		}
+	}
+	return n > 0
+}
+
 func (c *Ctx) bitStorageLengthChecks() []core.Ob {
 	var obs []core.Ob
 	lay := c.bitStorageLayout()
@@ -337,6 +409,41 @@ func (c *Ctx) bitStorageLengthChecks() []core.Ob {
 			}
 			okBlocks = append(okBlocks, eq)
 			continue
+		}
+		// err := b.checkLen(bits); if err != nil { return err }: the nil edge of a helper of the package
+		// that returns nil only behind its own comparison of len(data) with the required size
+		if isNilConst(cmp.Y) || isNilConst(cmp.X) {
+			ev := cmp.X
+			if isNilConst(ev) {
+				ev = cmp.Y
+			}
+			if hc, ok := ev.(*ssa.Call); ok && isErrorType(hc.Type()) {
+				// check(len(b.data), size): nil only when the two numbers are equal
+				if sc := hc.Common().StaticCallee(); sc != nil {
+					viaArgs := false
+					for j, a := range hc.Common().Args {
+						if isLen(a) && eqChecker(sc, j) {
+							viaArgs = true
+						}
+					}
+					if viaArgs {
+						nilEdge := b.Succs[0]
+						if cmp.Op == token.NEQ {
+							nilEdge = b.Succs[1]
+						}
+						okBlocks = append(okBlocks, nilEdge)
+						continue
+					}
+				}
+				if g := hc.Common().StaticCallee(); g != nil && inPkgs(g, "level") && len(g.Params) > 0 && len(hc.Common().Args) > 0 && hc.Common().Args[0] == ssa.Value(fx.Params[0]) && c.nilOnlyBehindLenCheck(core.Origin(g), lay.data) {
+					nilEdge := b.Succs[0]
+					if cmp.Op == token.NEQ {
+						nilEdge = b.Succs[1]
+					}
+					okBlocks = append(okBlocks, nilEdge)
+					continue
+				}
+			}
 		}
 		// bits == 0
 		if k, ok := constIntVal(cmp.Y); ok && k == 0 && len(fx.Params) > 1 && cmp.X == ssa.Value(fx.Params[1]) {
